@@ -738,3 +738,73 @@ package eventbus
 //@        (forall k int :: {events[k]} 0 <= k && k < len(events) ==> events[k] == logAt(loopentry(log(payload(bus.store))), P0(bus, from) + loopentry(cnt(replayCb)) + k) && events[k] != nil) &&
 //@        delivered(bus, from, log(payload(bus.store)), cnt(replayCb)) && seqeq(events, loopentry(events))
 //@        && cnt(readStreamCall) == 0 && cnt(Append) == 0 && cnt(deliver) == 0 && cnt(publishCtx) == 0
+
+// MemoryStore.ReadStream: the iterator implements the iterator protocol over
+// the snapshot  after(log, from)  taken under the read lock:
+// element yields in order, each once, outside the lock; it stops when yield
+// says so; on cancellation exactly one final yield(nil, ctx.Err()).
+//@ event yieldErr := call func(*StoredEvent, error) bool#1
+//@ event yieldElem := call func(*StoredEvent, error) bool#2 record 1:Int
+//@ callback func(*StoredEvent, error) bool(fn, ev, err)
+//@   effect reentrant
+//@   unlocked
+//@ func (*MemoryStore).ReadStream$1
+//@   props C10 C11
+//@   requires m != nil && ctx != nil && yield != nil
+//@   loop 1 invariant [idx] -1 <= rangeindex && rangeindex < len(m.events)
+//@   loop 1 invariant [ev.stable] m.events == loopentry(m.events) && seqeq(m.events, loopentry(m.events))
+//@        && (sarr(events) != sarr(m.events) || sarr(events) == 0) && (allocated(sarr(m.events)) || sarr(m.events) == 0)
+//@   loop 1 invariant [block] 0 <= len(events) && len(events) <= rangeindex + 1 &&
+//@        (forall j int :: {m.events[j]} 0 <= j && j < rangeindex + 1 - len(events) ==> !after(from, m.events[j])) &&
+//@        (forall k int :: {events[k]} 0 <= k && k < len(events) ==> events[k] == m.events[rangeindex + 1 - len(events) + k] && after(from, events[k]) && events[k] != nil)
+//@   loop 1 invariant [nocalls] cnt(yieldElem) == 0 && cnt(yieldErr) == 0
+//@   loop 1 owned events
+//@   at unlock:MemoryStore.mu assert [C10.stream.snapshot] {C10,C11}
+//@        (forall j int :: {acqat(m.events, j)} 0 <= j && j < len(acq(m.events)) - len(events) ==> !after(from, acqat(m.events, j))) &&
+//@        (forall k int :: {events[k]} 0 <= k && k < len(events) ==> events[k] == acqat(m.events, len(acq(m.events)) - len(events) + k) && after(from, events[k]))
+//@        && len(events) <= len(acq(m.events)) && cnt(yieldElem) == 0 && cnt(yieldErr) == 0
+//@   loop 2 invariant [idx2] -1 <= rangeindex__2 && rangeindex__2 < len(events)
+//@   loop 2 invariant [C10.stream.order] {C10,C11} cnt(yieldElem) == rangeindex__2 + 1 && cnt(yieldErr) == 0 && seqeq(events, loopentry(events)) && events == loopentry(events) &&
+//@        (forall j int :: {nth(yieldElem, j, 1)} 0 <= j && j < cnt(yieldElem) ==> nth(yieldElem, j, 1) == loopentry(events)[j])
+//@   ensures [C10.stream.prefix] {C10,C11} cnt(yieldElem) <= len(events) && cnt(yieldErr) <= 1 &&
+//@        (forall j int :: {nth(yieldElem, j, 1)} 0 <= j && j < cnt(yieldElem) ==> nth(yieldElem, j, 1) == events[j])
+//@   ensures [C10.stream.complete] {C10,C11} cnt(yieldErr) == 0 && (cnt(yieldElem) == 0 || lastres(yieldElem, Bool)) ==> cnt(yieldElem) == len(events)
+//@   ensures [C10.stream.cancel] {C10,C11} cnt(yieldErr) == 1 ==> lastarg(yieldErr, 1) == nil && lastarg(yieldErr, 2, Iface) != nil && ctxSeenDone(ctx)
+
+//@ func (*MemoryStore).ReadStream
+//@   props C10 C11
+//@   requires m != nil && ctx != nil
+//@   ensures [C10.stream.closure] result != nil
+
+// ---------------------------------------------------------------- upcasting (C16 termination, C17 chain)
+// Upcast functions and the upcast error handler run under the registry read
+// lock; they are assumed pure / not to call back into the bus (they are not in
+// the re-entrancy clause of C03).
+//@ callback UpcastFunc(fn, data)
+//@   effect pure
+//@   ensures result0 == upData(fn, data) && result1 == upType(fn, data) && ((err != nil) <==> upFails(fn, data))
+//@ callback UpcastErrorHandler(fn, eventType, data, err)
+//@   effect opaque
+//@ event upcastCall := call UpcastFunc record 0:Int 1:String
+//@ event upErrHandler := call UpcastErrorHandler
+//@ def firstUp(r, t) ite(len(r.upcasters[t]) > 0, r.upcasters[t][0].Upcast, 0)
+//@ lockinv upcastRegistry.mu(r) [UpInv.fn] {C16,C17} forall t string, i int :: {r.upcasters[t][i]} 0 <= i && i < len(r.upcasters[t]) ==> r.upcasters[t][i].Upcast != nil
+
+//@ func (*upcastRegistry).apply
+//@   props C16 C17
+//@   requires r != nil
+//@   loop 1 invariant [C17.apply.chain] {C17} appliedTypes != nil &&
+//@        chainD(arrayOf(firstUp, string, r), currentData, currentType) == chainD(arrayOf(firstUp, string, r), data, eventType) &&
+//@        chainT(arrayOf(firstUp, string, r), currentData, currentType) == chainT(arrayOf(firstUp, string, r), data, eventType) &&
+//@        (chainOK(arrayOf(firstUp, string, r), currentData, currentType) <==> chainOK(arrayOf(firstUp, string, r), data, eventType))
+//@        && cnt(upErrHandler) == 0 && cnt(upcastCall) >= 0
+//@        && (forall j int :: {nth(upcastCall, j, 0)} 0 <= j && j < cnt(upcastCall) ==> !upFails(nth(upcastCall, j, 0), nth(upcastCall, j, 1)))
+//@   loop 1 invariant [C16.apply.freshMark] {C16} !appliedTypes[currentType]
+//@   ensures [C17.apply.ok] {C17} result2 == nil ==> result0 == acq(chainD(arrayOf(firstUp, string, r), data, eventType)) &&
+//@        result1 == acq(chainT(arrayOf(firstUp, string, r), data, eventType)) && acq(chainOK(arrayOf(firstUp, string, r), data, eventType))
+//@   ensures [C17.apply.fail.original] {C17} result2 != nil ==> result0 == data && result1 == eventType
+//@   ensures [C17.apply.fail.chain] {C17} !acq(chainOK(arrayOf(firstUp, string, r), data, eventType)) ==> result2 != nil
+//@   ensures [C17.apply.fail.handlerOnce] {C17} cnt(upErrHandler) == ite(cnt(upcastCall) > 0 &&
+//@          upFails(nth(upcastCall, cnt(upcastCall) - 1, 0), nth(upcastCall, cnt(upcastCall) - 1, 1)) && r.errorHandler != nil, 1, 0)
+//@   ensures [C17.apply.fail.handlerArgs] {C17} cnt(upErrHandler) == 1 ==> result2 != nil && lastarg(upErrHandler, 2, String) == nth(upcastCall, cnt(upcastCall) - 1, 1)
+//@        && lastarg(upErrHandler, 3, Iface) != nil
